@@ -512,7 +512,7 @@ func reportBadLines(ctx *core.Ctx, bad []*Line) {
 			sig := core.Sig{Family: "text", Feature: "neighbour-output-changed"}
 			if ok {
 				sig.Feature = ClassifyText(is.s, want, got)
-				if (is.lo == "" || is.ro == "") && strings.HasPrefix(sig.Feature, "ws:") {
+				if (is.lo == "" || is.ro == "") && strings.HasPrefix(sig.Feature, "ws:") && !strings.HasPrefix(sig.Feature, "ws:pos=inner") {
 					sig = core.Sig{Family: "comment", Feature: "next-to-comment:" + sig.Feature}
 				}
 			}
